@@ -1,27 +1,5 @@
 // fragment: lazy iterators (C12): per-element drivers in parser.rs + the latching iterator methods
-#[verifier::external_body]
-pub struct Read<'a> { _p: core::marker::PhantomData<&'a ()> }
-// `Read` is the bounds-checked reader; it meets the Reader contract (T1, Kani harnesses reader_*)
-impl<'de> Reader<'de> for Read<'de> {
-    uninterp spec fn data(&self) -> Seq<u8>;
-    uninterp spec fn idx(&self) -> nat;
-    uninterp spec fn wf(&self) -> bool;
-    #[verifier::external_body] fn remain(&self) -> (r: usize) { unimplemented!() }
-    #[verifier::external_body] fn peek(&self) -> (r: Option<u8>) { unimplemented!() }
-    #[verifier::external_body] fn peek_n(&self, n: usize) -> (r: Option<&'de [u8]>) { unimplemented!() }
-    #[verifier::external_body] fn next_n(&mut self, n: usize) -> (r: Option<&'de [u8]>) { unimplemented!() }
-    #[verifier::external_body] fn eat(&mut self, n: usize) { unimplemented!() }
-    #[verifier::external_body] fn backward(&mut self, n: usize) { unimplemented!() }
-    #[verifier::external_body] fn next(&mut self) -> (r: Option<u8>) { unimplemented!() }
-    #[verifier::external_body] fn index(&self) -> (r: usize) { unimplemented!() }
-    #[verifier::external_body] fn at(&self, index: usize) -> (r: u8) { unimplemented!() }
-    #[verifier::external_body] fn set_index(&mut self, index: usize) { unimplemented!() }
-    #[verifier::external_body] fn slice_unchecked(&self, start: usize, end: usize) -> (r: &'de [u8]) { unimplemented!() }
-    #[verifier::external_body] fn as_u8_slice(&self) -> (r: &'de [u8]) { unimplemented!() }
-    #[verifier::external_body] fn check_utf8_final(&self) -> (r: Result<()>) { unimplemented!() }
-    #[verifier::external_body] fn slice_ref(&self, subset: &'de [u8]) -> (r: JsonSlice<'de>) { unimplemented!() }
-}
-
+//@include units/frag_iter_read.vt.rs
 //@extract file=src/lazyvalue/value.rs enum=HasEsc
 //@subst /pub\(crate\) enum/ => pub enum
 //@end
